@@ -489,6 +489,47 @@ Definition conv_block (p : pblock) (ext : bool) : cres :=
   else CErr CDeser
   end end end end end.
 
+(* ------------------------------------------------------------------ blocks of an authorizer snapshot *)
+(* proto_snapshot_block_to_token_block (convert.rs:162-223): the same conversion for a
+   SnapshotBlock -- no symbol or key table, an optional external key converted last, check kinds
+   refused only at 3.0, and *no* 3.2 floor for a block that carries an external key *)
+Record psnap := mkpsnap {
+  ps_context : option bytes; ps_version : option N;
+  ps_facts : list ppred; ps_rules : list prule; ps_checks : list pcheck;
+  ps_scopes : list pscope; ps_external : option wkey }.
+
+Inductive sres := SOk (b : iblock) (ext : option wkey) | SErr (e : cerr).
+
+Definition conv_snapshot_block (p : psnap) : sres :=
+  let version := match ps_version p with Some v => v | None => 0 end in
+  if negb ((Schema.MIN_SCHEMA_VERSION <=? version) && (version <=? Schema.MAX_SCHEMA_VERSION))
+  then SErr CVersion
+  else match conv_preds (ps_facts p) with
+  | None => SErr CDeser
+  | Some facts =>
+  match conv_rules version (ps_rules p) with
+  | None => SErr CDeser
+  | Some rules =>
+  if (version =? Schema.MIN_SCHEMA_VERSION)
+     && existsb (fun c => match pc_kind c with Some _ => true | None => false end) (ps_checks p)
+  then SErr CDeser
+  else match conv_checks version (ps_checks p) with
+  | None => SErr CDeser
+  | Some checks =>
+  match conv_scopes (ps_scopes p) with
+  | None => SErr CDeser
+  | Some scopes =>
+  if negb (Schema.check_compatibility Schema.repaired (shape_version facts rules checks scopes) version)
+  then SErr CDeser
+  else match ps_external p with
+       | None => SOk (mkiblock [] (ps_context p) version facts rules checks scopes [] false) None
+       | Some k => match conv_key_proto k with
+                   | inl e => SErr e
+                   | inr k' => SOk (mkiblock [] (ps_context p) version facts rules checks scopes [] true) (Some k')
+                   end
+       end
+  end end end end.
+
 End WithCurve.
 
 (* ------------------------------------------------------------------ the way back *)
@@ -652,3 +693,9 @@ Definition iblock_wf (b : iblock) : Prop :=
   Forall ipred_wf (ib_facts b) /\ Forall irule_wf (ib_rules b) /\ Forall icheck_wf (ib_checks b)
   /\ Forall scope_wf (ib_scopes b) /\ keys_wf (ib_keys b) /\ iblock_gates b = true.
 End WF.
+
+(* token_block_to_proto_snapshot_block *)
+Definition unconv_snapshot_block (b : iblock) (ext : option wkey) : psnap :=
+  mkpsnap (ib_context b) (Some (ib_version b))
+          (map unconv_pred (ib_facts b)) (map unconv_rule (ib_rules b))
+          (map unconv_check (ib_checks b)) (map unconv_scope (ib_scopes b)) ext.
